@@ -471,9 +471,14 @@ def _single_shot_peek(plan, viol):
     first = info.get("first_chunk")
     if need is None or first is None or not info.get("whole_ok"):
         return False
-    # the shortest sufficient first chunk is the length of the deciding magic: 2 gzip, 3 bz2/Avro, 4 lz4/zstd,
-    # 19 for an uncompressed record stream
-    limit = 19
+    # the shortest sufficient first chunk is the length of the deciding magic: 2 gzip, 3 bzip2, 4 lz4/zstd (once the
+    # codec is recognised the decompressor's own peek reads until it has data); uncompressed: 3 for Avro, 19 for a
+    # record stream.  A first read that is longer than that and still fails is NOT this finding.
+    codec, container = info.get("codec"), info.get("container")
+    if codec in NEED_FIRST:
+        limit = NEED_FIRST[codec]
+    else:
+        limit = 3 if container == "avro" else 19
     return first < limit and need <= limit
 
 
